@@ -14,7 +14,10 @@ NASTY = ['q"uote', "back\\slash", "tab\there", "new\nline", "nul\x00", "Ã©", "æ—
          "\U0001f600\u200d", "\ufeff",
          # suffixes / spellings that a "normalising" constructor or reader would rewrite
          ".git", "x.git.git", "ABCDEF12-3456-7890-ABCD-EF1234567890", "{abcdef12-3456-7890-abcd-ef1234567890}",
-         "urn:uuid:abcdef12-3456-7890-abcd-ef1234567890", "abcdef1234567890abcdef1234567890", " padded ", "MiXeD"]
+         "urn:uuid:abcdef12-3456-7890-abcd-ef1234567890", "abcdef1234567890abcdef1234567890", " padded ", "MiXeD",
+         # otherwise plain text that ENDS in (or is) one control character: `$` in a regular expression also matches before a
+         # final line feed, so an "is it plain?" test lets these through (seeded change C08-13)
+         "\n", "plain\n", "plain\r", "plain\t", "\nlead", "x\n\n", "plain\x00", "tail\x0b", "tail\x0c", "tail\x85", "tail\u2028"]
 
 
 def gen_str(rng, base):
